@@ -609,9 +609,10 @@ impl Engine for DfaEngine {
                         if self.kind == DKind::C13 {
                             rep.inc("nontrivial");
                         }
-                        // sequences of minimize / remove_unreachable_states: everywhere in the thorough tier; in the quick
-                        // tier for two label shapes of the small automata and a stride of the 4-state ones
-                        let with_ops = ctx.tier == Tier::Thorough || ((shape == 0 || shape == 6) && (n <= 3 || code % 16 == 3));
+                        // sequences of minimize / remove_unreachable_states: thorough tier: all automata with <= 3 states and the
+                        // 4-state 2-letter ones, a stride of the larger ones; quick tier: two label shapes of the small automata
+                        // and a stride of the 4-state ones
+                        let with_ops = if ctx.tier == Tier::Thorough { n <= 3 || (n == 4 && k == 2) || code % 64 == 3 } else { (shape == 0 || shape == 6) && (n <= 3 || code % 16 == 3) };
                         let msgs = dfa_case(self.kind, n, k, &delta, &fin, shape, with_ops, rep);
                         if !msgs.is_empty() {
                             rep.violation(self.kind.id(), "dfa", json!({"engine": "dfa", "n": n, "k": k, "delta": delta, "final": fin, "shape": shape}), format!("DFA n={} k={} delta={:?} final={:?} shape={}: {}", n, k, delta, fin, shape, msgs.join(" | ")));
